@@ -17,6 +17,7 @@ import (
 	"encoding/json"
 	"flag"
 	"fmt"
+	"os"
 	"strconv"
 	"strings"
 	"sync"
@@ -1109,7 +1110,7 @@ func runC09MGet(c Case) (res obs.Result) {
 			cancelled[e.Key] = e.Err
 		}
 	}
-	if c.Fail != "kill" {
+	if c.Fail != "kill" && os.Getenv("CSC_NO_RECORDER_ORACLE") == "" { // (the switch exists to exercise the behavioural oracles alone)
 		for _, k := range misses {
 			if _, ok := cancelled[k]; !ok {
 				res.Oracle = fmt.Sprintf("arrangement %v, failure %s: the flight of %s, started by the failing MGET, was not cancelled (cancelled: %v)", c.Arr, c.Fail, k, cancelled)
